@@ -12,7 +12,7 @@
     [inc_end m g n] / [hh_end g n] = n lies on an included / on an H-H bond, [charge_changed a] = the two charges in typesGH differ.
     Theorems 13-17: the RadiusExpand helpers. *)
 From Coq Require Import List NArith ZArith Bool.
-From SK Require Import lib.LGraph lib.C01_GraphLemmas model.C01_Model model.C01_Opts model.C02_Model model.C02_Store model.C02_Api proof.C02_Store proof.C02_StoreCtx proof.C02_StoreEquiv proof.C02_StoreNest proof.C02_StoreCtx2 proof.C02_CtxFix proof.C02_Spectator proof.C02_Implicit proof.C02_Api model.C02_Compare proof.C02_Compare proof.C02_Proof proof.C02_Opts proof.C02_OptsEquiv proof.C02_Ctx proof.C02_Lre proof.C02_LreTrace proof.C02_Sides proof.C02_Sides2 proof.C02_CtxEquiv proof.C02_LreEquiv proof.C02_CtxCentre proof.C02_CtxNest model.C01_String proof.C01_StringEH proof.C02_ExplicitH.
+From SK Require Import lib.LGraph lib.C01_GraphLemmas model.C01_Model model.C01_Opts model.C02_Model model.C02_Store model.C02_Api proof.C02_Store proof.C02_StoreCtx proof.C02_StoreEquiv proof.C02_StoreNest proof.C02_StoreCtx2 proof.C02_CtxFix proof.C02_Spectator proof.C02_Implicit proof.C02_Saturate proof.C02_Api model.C02_Compare proof.C02_Compare proof.C02_Proof proof.C02_Opts proof.C02_OptsEquiv proof.C02_Ctx proof.C02_Lre proof.C02_LreTrace proof.C02_Sides proof.C02_Sides2 proof.C02_CtxEquiv proof.C02_LreEquiv proof.C02_CtxCentre proof.C02_CtxNest model.C01_String proof.C01_StringEH proof.C02_ExplicitH.
 (* [extract_k_S] in section 28 is the definition of model/C02_Store.v (proof/C02_Proof.v has a lemma of that name) *)
 From SK Require Import model.C02_Store.
 Import ListNotations.
@@ -972,3 +972,17 @@ Theorem C02_property_statement_S : forall g : sits, wf g ->
      (forall u v, adj (extract_k_S g k') u v <> None -> adj g u v <> None)).
 Proof. exact property_statement_S. Qed.
 Print Assumptions C02_property_statement_S.
+
+(** 53. Contexts saturate: from radius |atoms| + 1 on nothing is added any more, for any start atoms of the graph and any node / bond
+        type; on an ITS: extract_k with a huge radius (the "radius 50" degenerate cases) is extract_k with radius |atoms| + 1. *)
+Theorem C02_ball_saturates : forall (A B : Type) (g : lgraph A B), wf g -> forall (seeds : list N) (j : nat),
+  (forall s, In s seeds -> In s (node_ids g)) ->
+  knn_g g seeds (S (length (node_ids g)) + j) = knn_g g seeds (S (length (node_ids g))) /\
+  ball_sub g seeds (S (length (node_ids g)) + j) = ball_sub g seeds (S (length (node_ids g))).
+Proof. exact (@ball_saturates). Qed.
+Print Assumptions C02_ball_saturates.
+
+Theorem C02_extract_k_saturates : forall (g : its) (j : nat), wf g ->
+  extract_k g (S (length (node_ids g)) + j) = extract_k g (S (length (node_ids g))).
+Proof. exact extract_k_saturates. Qed.
+Print Assumptions C02_extract_k_saturates.
